@@ -21,18 +21,70 @@ def driver_ok(ctx):
     return ok
 
 
+TSAN_TARGET = os.path.join(common.TARGET, "tsan")
+TSAN_REL = os.path.join("..", "tsan", "x86_64-unknown-linux-gnu", "debug", "c16")
+TSAN_LOGS = os.path.join(TSAN_TARGET, "reports-c16")
+
+
+def tsan_build(ctx):
+    """The harness in a ThreadSanitizer build (`cargo +nightly -Zbuild-std`,
+    offline; same target directory as C12's). std is rebuilt instrumented, so
+    the futex mutex's acquire/release are seen. None if the toolchain cannot
+    build it (recorded as a note)."""
+    import subprocess
+    e = common.env()
+    e["RUSTFLAGS"] = "-Zsanitizer=thread"
+    e["CARGO_TARGET_DIR"] = TSAN_TARGET
+    with common.Lock("cargo-tsan"):
+        try:
+            p = subprocess.run(
+                ["cargo", "+nightly", "build", "--offline", "--quiet", "-Zbuild-std",
+                 "--target", "x86_64-unknown-linux-gnu", "--bin", "c16", "-j", "4"],
+                cwd=os.path.join(common.VERIF, "harness"), env=e, timeout=2400,
+                stdout=subprocess.PIPE, stderr=subprocess.STDOUT, text=True, errors="replace")
+            ok, out = p.returncode == 0, p.stdout
+        except (subprocess.TimeoutExpired, OSError) as ex:
+            ok, out = False, repr(ex)
+    if not ok:
+        ctx.notes.append("thread-sanitizer build not available here: " + out[-300:].replace("\n", " "))
+        return False
+    return True
+
+
+def tsan(ctx, trials, name):
+    """Free-running races of list operations under ThreadSanitizer: finds an
+    access to list memory outside the ordering its mutex gives even when no
+    schedule point separates it from the critical section."""
+    if not tsan_build(ctx):
+        return
+    os.makedirs(TSAN_LOGS, exist_ok=True)
+    old = {k: os.environ.get(k) for k in ("TSAN_OPTIONS", "C16_TSAN_LOGDIR")}
+    os.environ["TSAN_OPTIONS"] = "halt_on_error=1 exitcode=66 log_path=" + os.path.join(TSAN_LOGS, "tsan")
+    os.environ["C16_TSAN_LOGDIR"] = TSAN_LOGS
+    try:
+        ctx.harness(TSAN_REL, ["tsan", ctx.seed + 1, trials], timeout=2400, name=name)
+    finally:
+        for k, v in old.items():
+            if v is None:
+                os.environ.pop(k, None)
+            else:
+                os.environ[k] = v
+
+
 def search(ctx):
     """A theorem stopped checking against the regenerated lock-scope facts, or
     the model and the implementation disagree: hunt for a schedule on which the
     property fails on the real code: the scheduled case set with another seed
-    (the property oracle needs no model) and 400000 free-running races, which
+    (the property oracle needs no model) and 200000 free-running races, which
     can hit code that touches the buffer outside every guard without passing a
     schedule point."""
     if any(not common.match_known(common.load_known(ctx.pid), v) for v in ctx.impl_violations):
         return
     if ctx.build_harness("c16"):
-        ctx.harness("c16", harness_args(ctx, ctx.seed + 7919, "quick", model=driver_ok(ctx)) + ["--stress", "400000"],
+        ctx.harness("c16", harness_args(ctx, ctx.seed + 7919, "quick", model=driver_ok(ctx)) + ["--stress", "200000"],
                     timeout=3000, name="search:c16")
+    if not any(not common.match_known(common.load_known(ctx.pid), v) for v in ctx.impl_violations):
+        tsan(ctx, 6000, "search:c16-tsan")
 
 
 def run(ctx):
@@ -44,6 +96,8 @@ def run(ctx):
         model = driver_ok(ctx)
     if ctx.build_harness("c16"):
         ctx.harness("c16", harness_args(ctx, ctx.seed, ctx.tier, model=model), timeout=3000)
+        if ctx.tier == "thorough":
+            tsan(ctx, 6000, "correspondence:c16-tsan")
     ctx.trusted += [
         "std::sync::Mutex gives mutual exclusion and Arc keeps the list alive while a handle exists (not verified)",
         "the schedule points of the verif-hooks instrumentation (before every list mutex acquisition, between pointer "
@@ -73,7 +127,20 @@ def replay(ctx, data):
     if not ctx.build_harness("c16"):
         return 1
     inp = data["input"]
-    case = {k: inp[k] for k in ("lists", "progs", "sched") if k in inp}
+    if inp.get("tsan"):
+        # probabilistic in time, deterministic in outcome: repeat the race under ThreadSanitizer
+        if not tsan_build(ctx):
+            return 1
+        os.environ["TSAN_OPTIONS"] = "halt_on_error=1 exitcode=66"
+        case = {"lists": inp["lists"], "progs": inp["progs"], "stress": True, "seed": inp.get("seed", 1)}
+        rc, out = common.run([os.path.join(common.TARGET, "debug", TSAN_REL), "replay", json.dumps(case)],
+                             cwd=common.VERIF, timeout=1200)
+        if rc == 66:
+            print("REPLAY-VIOLATION tsan -", "\n".join(l for l in out.splitlines() if "ThreadSanitizer" in l or "roto::value::list" in l)[:1500])
+            return 1
+        print(out[-400:])
+        return 0 if rc == 0 else 1
+    case = {k: inp[k] for k in ("lists", "progs", "sched", "stress", "seed") if k in inp}
     rep = ctx.harness("c16", ["replay", json.dumps(case)])
     if rep is None:
         return 1
